@@ -64,6 +64,24 @@ class Report:
         else:
             self.ok(rule, "floor %s: %d >= %d (confirmed %d)" % (name, count, need, minimum))
 
+    def include(self, module_name, f, fixture, cfg, tier, rule, why, only_rules=None, floor=1):
+        """This property rests on another one (e.g. "verification succeeds only if the digests match" rests on the digest
+        rules): run that property's rules on the same facts and take its findings and obligations over under `rule`."""
+        import importlib
+        mod = importlib.import_module(module_name)
+        sub = Report(module_name.upper(), tier)
+        mod.run(f, fixture, sub, cfg, tier)
+        n = 0
+        for fd in sub.findings:
+            if only_rules is not None and fd["rule"] not in only_rules:
+                continue
+            self.finding(rule, "%s|%s" % (module_name.upper(), fd["key"].split("|", 1)[1]), "%s: %s" % (why, fd["msg"]), fd["loc"])
+        for o in sub.obligations:
+            if o["ok"] and (only_rules is None or o["rule"] in only_rules):
+                n += 1
+                self.ok(rule, "%s %s: %s" % (module_name.upper(), o["rule"], o["desc"]), o["loc"])
+        self.floor(rule, "obligations taken over from %s" % module_name.upper(), n, floor)
+
     def count(self, name, n):
         self.counts[name] = self.counts.get(name, 0) + n
 
